@@ -64,6 +64,56 @@ pub fn dispatch(req: &Value) -> Result<Value, String> {
             }
             Ok(json!(outs))
         }
+        "kernel" => {
+            // private string kernels, reached through the verif-hooks feature (or public API)
+            use tauri_typegen::analysis::serde_parser::verif_hooks as sh;
+            use tauri_typegen::analysis::type_resolver::verif_hooks as th;
+            use tauri_typegen::analysis::validator_parser::verif_hooks as vh;
+            use tauri_typegen::generators::base::template_context::verif_hooks as ch;
+            use tauri_typegen::generators::base::template_context::NamingContext;
+            use tauri_typegen::generators::base::templates::verif_hooks as gh;
+            use tauri_typegen::generators::zod::schema_builder::verif_hooks as zh;
+            let a = s(req, "arg");
+            let out = match req["name"].as_str().unwrap_or("") {
+                "parse_type_structure" => serde_json::to_value(TypeResolver::new().parse_type_structure(&a)).unwrap(),
+                "extract_type_names" => {
+                    let an = tauri_typegen::analysis::CommandAnalyzer::new();
+                    let mut set = HashSet::new();
+                    an.extract_type_names(&a, &mut set);
+                    let mut v: Vec<String> = set.into_iter().collect();
+                    v.sort();
+                    json!(v)
+                }
+                "add_types_prefix" => json!(gh::add_types_prefix(&a)),
+                "ts_property_key" => json!(gh::ts_property_key(&a)),
+                "to_ts_identifier" => json!(ch::to_ts_identifier(&a)),
+                "split_top_level_commas" => json!(th::split_top_level_commas(&a)),
+                "serde parse_meta_items" => json!(sh::parse_meta_items(&a)),
+                "validator split_top_level" => json!(vh::split_top_level(&a)),
+                "validator named_arguments" => json!(vh::named_arguments(&a)),
+                "parse_message_from_content" => json!(vh::parse_message_from_content(&a)),
+                "parse_length_from_tokens" => json!(vh::parse_length_from_tokens(&a)),
+                "parse_range_from_tokens" => json!(vh::parse_range_from_tokens(&a)),
+                "escape_js_string" => json!(zh::escape_js_string(&a)),
+                "event_name_to_function" => {
+                    let cfg = tauri_typegen::GenerateConfig::default();
+                    let c = tauri_typegen::generators::base::template_context::EventContext::new(&cfg);
+                    json!(c.event_name_to_function(&a))
+                }
+                "compute_parameter_name" => {
+                    let cfg = tauri_typegen::GenerateConfig::default();
+                    let c = tauri_typegen::generators::base::template_context::CommandContext::new(&cfg);
+                    json!([
+                        c.compute_parameter_name(&a, &None, &None),
+                        c.compute_function_name(&a, &None),
+                        c.compute_type_name(&a, &None),
+                        c.compute_field_name(&a, &None, &None)
+                    ])
+                }
+                other => return Err(format!("unknown kernel {}", other)),
+            };
+            Ok(out)
+        }
         "heck" => {
             use heck::{ToLowerCamelCase, ToSnakeCase};
             let a = s(req, "arg");
